@@ -57,7 +57,7 @@ def reference_in_fresh_process(case):
     """trial sequence of a solver running alone in a fresh interpreter: immune to anything other solvers leave behind in this process"""
     import json
     code = ("import sys, json, warnings; warnings.simplefilter('ignore'); sys.path.insert(0, '/verif')\nfrom vlib import oracles as O, harness as H\n"
-            "p, s = O.build(%r)\nsol, out = H.run_script(s, [('solve',)])\nprint('REF=' + json.dumps([[list(y), v] for y, v in p.log]))" % (case,))
+            "p, s = O.build(%r)\nsol, out = H.run_script(s, [('iter', 3), ('iter', 8), ('solve',)])\nprint('REF=' + json.dumps([[list(y), v] for y, v in p.log]))" % (case,))
     rc, out, dt = H.run_isolated(code, timeout=120)
     line = [l for l in out.splitlines() if l.startswith('REF=')]
     return json.loads(line[0][4:]) if line else None
@@ -69,16 +69,30 @@ def against_fresh_reference(case):
     ref = reference_in_fresh_process(case['victim'])
     if ref is None:
         return ['the victim did not finish alone in a fresh interpreter']
+    with warnings.catch_warnings():
+        warnings.simplefilter('ignore')
+        p, s = O.build(case['victim'])      # the victim exists and has made three trials when the others run
+        with H.quiet():
+            s.DoGlobalIteration(3)
     for c in case['disturbers']:
-        p, s = O.build(c)
+        pd = None
         try:
-            H.run_script(s, c.get('script') and [tuple(o) for o in c['script']] or [('solve',)])
+            if c.get('on_victims_problem'):      # a second solver on the SAME Problem object (it may only read it)
+                sd = H.make_solver(p, r=c['r'], eps=c['eps'], iters=c['iters'], density=c.get('density'), refine=c.get('refine', False))
+                n0 = len(p.log)
+                H.run_script(sd, [('iter', 4), ('refine', 20)])
+                del p.log[n0:]
+                if [float(v) for v in p.lowerBoundOfFloatVariables] != [float(v) for v in case['victim']['lo']] or [float(v) for v in p.upperBoundOfFloatVariables] != [float(v) for v in case['victim']['hi']]:
+                    return ['another solver working on the same Problem object changed the bounds stored in it: %r..%r -> %r..%r'
+                            % (case['victim']['lo'], case['victim']['hi'], [float(v) for v in p.lowerBoundOfFloatVariables], [float(v) for v in p.upperBoundOfFloatVariables])]
+            else:
+                pd, sd = O.build(c)
+                H.run_script(sd, c.get('script') and [tuple(o) for o in c['script']] or [('solve',)])
         except Exception:  # noqa  (a disturber may fail: its caller handles that)
             pass
     with warnings.catch_warnings():
         warnings.simplefilter('ignore')
-        p, s = O.build(case['victim'])
-        sol, out = H.run_script(s, [('solve',)])
+        sol, out = H.run_script(s, [('iter', 8), ('solve',)])
     got = [[list(y), v] for y, v in p.log]
     if got != ref:
         k = next((i for i in range(min(len(got), len(ref))) if got[i] != ref[i]), min(len(got), len(ref)))
@@ -96,6 +110,16 @@ def fresh_reference_cases(rng, thorough):
         a = {'n': n, 'lo': lo, 'hi': [v + 1.0 for v in lo], 'r': 2.5, 'eps': 0.05, 'iters': 30, 'density': rng.choice([None, 6]), 'objective': {'kind': 'quad', 'c': [v + 0.3 for v in lo]}}
         b = dict(a, hi=[lo[0] + 4.0] + [v + 2.0 for v in lo[1:]])
         out += [{'disturbers': [a], 'victim': b}, {'disturbers': [b], 'victim': a}]
+    # a stochastic objective (numpy's global generator, seeded by its owner) next to a deterministic neighbour that is solved to the end
+    for _ in range(2 if thorough else 1):
+        noisy = {'n': 1, 'lo': [-1.0], 'hi': [2.0], 'r': 3.0, 'eps': 0.02, 'iters': 60, 'density': None, 'objective': {'kind': 'noisy', 'c': [0.4], 'seed': rng.randint(1, 99)}}
+        calm = {'n': 2, 'lo': [0.0, 0.0], 'hi': [1.0, 1.0], 'r': 2.5, 'eps': 0.05, 'iters': 25, 'density': None, 'objective': {'kind': 'quad', 'c': [0.3, 0.6]}}
+        out.append({'disturbers': [calm], 'victim': noisy})
+    # another solver refines on the victim's own Problem object (boxes with non-zero lower bounds stored as float64 arrays)
+    for lo, hi in (([-2.2], [1.8]), ([2.0, -3.0], [5.0, -1.0])):
+        n = len(lo)
+        v = {'n': n, 'lo': lo, 'hi': hi, 'r': 2.5, 'eps': 0.02, 'iters': 50, 'density': None, 'refine': True, 'objective': {'kind': 'quad', 'c': [a + 0.3 * (b - a) for a, b in zip(lo, hi)]}}
+        out.append({'disturbers': [dict(v, on_victims_problem=True, r=3.5)], 'victim': v})
     # a neighbour whose local refinement fails (its caller handles the error), then a solver whose objective relies on numpy's default
     # floating-point error handling (warn, do not raise)
     fail = {'n': 1, 'lo': [-1.0], 'hi': [1.0], 'r': 2.5, 'eps': 0.01, 'iters': 200, 'density': None, 'refine': True, 'objective': {'kind': 'quad', 'c': [0.3]},
